@@ -9,6 +9,8 @@ mod cmd_queries;
 mod cmd_config;
 mod cmd_fri;
 mod friprov;
+mod toy;
+mod cmd_stark;
 mod merkle;
 mod hashes;
 mod terms;
@@ -30,6 +32,7 @@ fn main() {
         "queries" => cmd_queries::run(rest),
         "config" => cmd_config::run(rest),
         "fri" => cmd_fri::run(rest),
+        "stark-replay" => cmd_stark::run_replay(rest),
         "fri-random" => cmd_fri::run_random(rest),
         "fri-highdeg" => cmd_fri::run_highdeg(rest),
         "build-info" => {
